@@ -6,6 +6,7 @@ package service
 import (
 	"net"
 	"sync"
+	"time"
 
 	"github.com/Jigsaw-Code/outline-sdk/transport"
 )
@@ -45,7 +46,7 @@ func (c *verifChanPC) Closed() int {
 }
 
 // Expire makes pending and later reads time out (the read deadline passed)
-func (c *verifChanPC) Expire() { close(c.expireCh) }
+func (c *verifChanPC) Expire()                                      { close(c.expireCh) }
 func (c *verifChanPC) WriteTo(p []byte, addr net.Addr) (int, error) { return len(p), nil }
 func (c *verifChanPC) Close() error {
 	if c.onClose != nil {
@@ -60,7 +61,7 @@ func (c *verifChanPC) Close() error {
 	close(c.closedCh)
 	return nil
 }
-func (c *verifChanPC) LocalAddr() net.Addr                { return c.local }
+func (c *verifChanPC) LocalAddr() net.Addr                 { return c.local }
 func (c *verifChanPC) SetDeadline(t verifTimeT) error      { return nil }
 func (c *verifChanPC) SetReadDeadline(t verifTimeT) error  { return nil }
 func (c *verifChanPC) SetWriteDeadline(t verifTimeT) error { return nil }
@@ -319,7 +320,7 @@ func VH_C13_listen_vs_close() {
 		// until the listening goroutine has taken the manager's lock (deterministic schedule)
 		verifBoundPCHook = func() {
 			t1started.Wait()
-			for i := 0; i < 200000; i++ {
+			for end := time.Now().Add(5 * time.Second); time.Now().Before(end); {
 				if lm.mu.TryLock() {
 					lm.mu.Unlock()
 					verifYield()
@@ -538,4 +539,184 @@ func VH_C12_acquire_failure() {
 	}
 	verifAssert("C12.acqfail.nothing-running", verifBlockedIn(verifAcceptLoop) == 0 && verifBlockedIn(verifReadLoop) == 0)
 	verifReach("C12.acqfail.done", true)
+}
+
+// C13: a listen call that fails (address in use) returns its error and leaves the manager usable
+func VH_C13_listen_failure() {
+	delete(verifBoundPC, "127.0.0.1:9000")
+	delete(verifBoundPC, "127.0.0.1:9001")
+	lm := NewListenerManager()
+	blocker, err := net.ListenTCP("tcp", &net.TCPAddr{IP: net.IPv4(127, 0, 0, 1), Port: 9302})
+	verifAssert("C13.listen-failure.blocker", err == nil)
+	VerifOccupyPacket("127.0.0.1:9000")
+	done := make(chan int, 4)
+	go func() {
+		_, err := lm.ListenStream("127.0.0.1:9302")
+		verifAssert("C13.listen-failure.stream-error-returned", err != nil)
+		done <- 1
+	}()
+	go func() {
+		_, err := lm.ListenPacket("127.0.0.1:9000")
+		verifAssert("C13.listen-failure.packet-error-returned", err != nil)
+		done <- 1
+	}()
+	verifQuiesce()
+	verifAssert("C13.listen-failure.calls-return", len(done) == 2)
+	blocker.Close()
+	VerifReleasePacket("127.0.0.1:9000")
+	if len(done) == 2 {
+		go func() {
+			h, err := lm.ListenPacket("127.0.0.1:9001")
+			if err == nil {
+				h.Close()
+			}
+			s, err2 := lm.ListenStream("127.0.0.1:9302")
+			if err2 == nil {
+				s.Close()
+			}
+			verifAssert("C13.listen-failure.manager-usable", err == nil && err2 == nil)
+			done <- 1
+		}()
+		verifQuiesce()
+		verifAssert("C13.listen-failure.later-calls-return", len(done) == 3)
+	}
+	verifReach("C13.listen-failure.done", true)
+}
+
+// C13: the last handle is closed while an accepted connection has not been taken by anyone;
+// the close returns, and so do later listen calls on the same and on other addresses
+func VH_C13_close_with_pending_connection() {
+	lm := NewListenerManager()
+	h, err := lm.ListenStream("127.0.0.1:0")
+	verifAssert("C13.pending.listen", err == nil)
+	id := verifDialTCP(h.Addr())
+	verifAssert("C13.pending.dial", id == 0)
+	verifQuiesce()
+	done := make(chan int, 4)
+	go func() { h.Close(); done <- 1 }()
+	verifQuiesce()
+	verifAssert("C13.pending.close-returns", len(done) == 1)
+	go func() {
+		h2, err := lm.ListenStream("127.0.0.1:0")
+		if err == nil {
+			h2.Close()
+		}
+		done <- 2
+	}()
+	go func() {
+		h3, err := lm.ListenStream("127.0.0.1:9303")
+		if err == nil {
+			h3.Close()
+		}
+		done <- 3
+	}()
+	verifQuiesce()
+	verifAssert("C13.pending.later-listens-return", len(done) == 3)
+	verifReach("C13.pending.done", true)
+}
+
+// C12: several datagrams in a row with two handles reading concurrently: each one is delivered
+// exactly once and intact
+func VH_C12_packet_burst() {
+	for rep := 0; rep < verifRepeat(600); rep++ {
+		verifC12Burst()
+	}
+	verifReach("C12.burst.done", true)
+}
+
+func verifC12Burst() {
+	delete(verifBoundPC, "127.0.0.1:9000")
+	ml := NewMultiPacketListener("127.0.0.1:9000", nil)
+	h1, _ := ml.Acquire()
+	h2, _ := ml.Acquire()
+	pc := verifBoundPC["127.0.0.1:9000"]
+	const n = 4
+	got := make(chan byte, 2*n)
+	var wg sync.WaitGroup
+	for _, h := range []net.PacketConn{h1, h2} {
+		h := h
+		wg.Add(1)
+		go func() {
+			defer wg.Done()
+			buf := make([]byte, 8)
+			for {
+				k, _, err := h.ReadFrom(buf)
+				if err != nil {
+					return
+				}
+				if k == 2 && buf[0] == buf[1] {
+					got <- buf[0]
+				} else {
+					got <- 0xff // torn datagram
+				}
+			}
+		}()
+	}
+	from := &net.UDPAddr{IP: net.IPv4(203, 0, 113, 5), Port: 4000}
+	verifQuiesce() // both handles are waiting in ReadFrom
+	go verifInjectAll(pc, n, from)
+	// the shared reader gets as far ahead of the reading handles as it can
+	verifRunOnly(verifReadLoop + "|verifInjectAll")
+	verifQuiesce()
+	verifAssert("C12.burst.all-delivered", len(got) == n)
+	seen := make([]int, n+1)
+	for len(got) > 0 {
+		v := <-got
+		if v >= 1 && int(v) <= n {
+			seen[v]++
+		} else {
+			verifAssert("C12.burst.intact", false)
+		}
+	}
+	for i := 1; i <= n; i++ {
+		verifAssert("C12.burst.exactly-once", seen[i] == 1)
+	}
+	h1.Close()
+	h2.Close()
+	wg.Wait()
+}
+
+// C11: a connection is handed to the old generation's accept call at the moment its handle is
+// closed, while the new generation's handle on the same address is accepting: the connection
+// is served by exactly one of them and not dropped
+func VH_C11_handoff_during_close() {
+	for rep := 0; rep < verifRepeat(2000); rep++ {
+		ml := NewMultiStreamListener("127.0.0.1:0", nil)
+		old, err1 := ml.Acquire()
+		neu, err2 := ml.Acquire()
+		verifAssert("C11.handoff.acquire", err1 == nil && err2 == nil)
+		rOld := verifAcceptAsync(old)
+		verifQuiesce()
+		rNew := verifAcceptAsync(neu)
+		verifQuiesce()
+		id := verifDialTCP(old.Addr())
+		verifAssert("C11.handoff.never-refused", id >= 0)
+		// the shared accept loop takes the connection and hands it to the handle that waited
+		// first (the old one); that handle is closed before its accept call has resumed
+		verifRunOnly(verifAcceptLoop)
+		old.Close()
+		verifQuiesce()
+		served := 0
+		if len(rOld) == 1 {
+			if a := <-rOld; a.err == nil {
+				served++
+			}
+		}
+		if len(rNew) == 1 {
+			if a := <-rNew; a.err == nil {
+				served++
+			}
+		}
+		verifAssert("C11.handoff.handled-by-exactly-one-generation", served == 1)
+		verifAssert("C11.handoff.not-dropped", id < 0 || !verifTCPPeerClosed(id))
+		neu.Close()
+		verifQuiesce()
+	}
+	verifReach("C11.handoff.done", true)
+}
+
+func verifInjectAll(pc *verifChanPC, n int, from net.Addr) {
+	for i := 0; i < n; i++ {
+		verifInject(pc, []byte{byte(i + 1), byte(i + 1)}, from) // no pause between datagrams
+	}
 }
